@@ -187,6 +187,14 @@ def main(replay=None):
                     hist += [("L", prog), ("S",)]; exp += [None, ("cut",)]
                 hist.append(("J", rng.choice([1, mx * 1000, mx * 20000]))); exp.append(None)
             a, b = rng.randint(1, 50), rng.randint(1, 50)
+            if rng.random() < 0.5:
+                # an expression that does not end (or asks the VM to exit) is cut like a run, and NOTHING of it is left behind: the
+                # evaluations and runs after it behave as on a fresh VM
+                hist.append(("E", rng.choice(["while {true} do {}", "_a = 0; while {true} do {_a = _a + 1}", "for \"_i\" from 0 to 1 step 0 do {}",
+                                             "ff = {call ff}; call ff", "exit__; 5", "exitcode__ 3; 5"])))
+                exp.append(("evalcut",))
+                if rng.random() < 0.5:
+                    hist.append(("J", rng.choice([1, mx * 1000]))); exp.append(None)
             hist.append(("E", "%d + %d" % (a, b))); exp.append(("eval", "%d" % (a + b)))
             if rng.random() < 0.5:
                 hist += [("J", mx * 4000), ("E", "[%d, %d] select 1" % (a, b))]; exp += [None, ("eval", "%d" % b)]
@@ -255,6 +263,14 @@ def main(replay=None):
             for (cmd, exp), o in zip(evs, d["i_eval"]):
                 f = o[1:].split(":", 4)
                 neval += 1
+                if exp[0] == "evalcut":
+                    t = f[3].split("-") if len(f) > 3 and "-" in f[3] else None
+                    took = (int(t[1]) - int(t[0])) if t else None
+                    if len(f) < 5 or f[0] != "0" or f[2] != "0" or took is None or (mx and took > mx * 1000 + SLACK_TICKS * tick):
+                        bad = ("the expression %r (evaluated as __EVAL does) must fail within the limit and leave the VM idle: ok=%s state=%s took=%s us (limit %d us)"
+                               % (cmd[1], f[0], f[2] if len(f) > 2 else "?", took, mx * 1000))
+                        break
+                    continue
                 if len(f) < 5 or f[0] != "1" or V.unhx(f[1]).decode("latin-1") != exp[1] or f[2] != "0":
                     bad = ("the expression %r evaluated on the idle VM (as __EVAL does) did not yield %s: ok=%s value=%r state=%s events=%s"
                            % (cmd[1], exp[1], f[0], V.unhx(f[1]).decode("latin-1") if len(f) > 1 else "?", f[2] if len(f) > 2 else "?", f[4][:80] if len(f) > 4 else ""))
